@@ -17,16 +17,20 @@ Inductive body :=
 | BErr       (* raises an Exception that is one of `errors` *)
 | BEsc.      (* raises something else: BaseException (CancelledError) or not an error-of-interest *)
 
-(* one episode's environment: is the wakeup event already set at entry; at which offset (s) into
-   the 1st / 2nd sleep it gets set (None = never); the body's outcome and duration *)
-Record ep := { e_ev : bool; e_wk1 : option Z; e_body : body; e_dur : Z; e_wk2 : option Z }.
+(* one episode's environment: is the wakeup event already set at entry; at which offset (>= 0) into
+   the 1st / 2nd sleep it gets set (None = never); whether it gets set while the block runs;
+   the block's outcome and duration *)
+Record ep := { e_ev : bool; e_wk1 : option Z; e_body : body; e_dur : Z; e_evb : bool; e_wk2 : option Z }.
+
+Definition with_body (e : ep) (b : body) : ep :=
+  {| e_ev := e_ev e; e_wk1 := e_wk1 e; e_body := b; e_dur := e_dur e; e_evb := e_evb e; e_wk2 := e_wk2 e |}.
 
 (* aiotime.sleep(remaining, wakeup): (clock afterwards, unslept time or None, event state) *)
 Definition sleep (ev : bool) (remaining now : Z) (wk : option Z) : Z * option Z * bool :=
   if remaining <=? 0 then (now, None, ev)
   else if ev then (now, Some remaining, true)
   else match wk with
-       | Some o => if (0 <? o) && (o <? remaining) then (now + o, Some (remaining - o), true)
+       | Some o => if (0 <=? o) && (o <? remaining) then (now + o, Some (remaining - o), true)
                    else (now + remaining, None, false)
        | None => (now + remaining, None, false)
        end.
@@ -73,7 +77,7 @@ Definition episode (dl : nat -> option Z) (st : tstate) (now : Z) (e : ep) : res
         match choose dl st with
         | (Some d, p') =>
             (* the 2nd sleep *)
-            match sleep ev1 d now2 (e_wk2 e) with
+            match sleep (ev1 || e_evb e) d now2 (e_wk2 e) with
             | (n, None, _) =>
                 {| r_state := {| pos := Some p'; lastd := Some d; until := None |};
                    r_start := now1; r_should := true; r_escalated := false; r_exit := n; r_pause := Some d |}
@@ -109,6 +113,31 @@ Fixpoint run_counts (dl : nat -> option Z) (st : tstate) (c : nat) (es : list (Z
       (c, e, r) :: run_counts dl (r_state r) (count_after c r (e_body e)) es'
   end.
 
+(* ---- processing.process_resource_event around it ----
+   `async with throttled(...) as should_run: if should_run: <index, handle, patch>`: the block does
+   nothing (and cannot fail) when told not to run; should_run does not depend on the block. *)
+Definition guard (dl : nat -> option Z) (st : tstate) (now : Z) (e : ep) : ep :=
+  if r_should (episode dl st now (with_body e BOk)) then e else with_body e BOk.
+
+Definition proc_event (dl : nat -> option Z) (st : tstate) (now : Z) (e : ep) : result :=
+  episode dl st now (guard dl st now e).
+
+Fixpoint run_proc (dl : nat -> option Z) (st : tstate) (es : list (Z * ep)) : list result :=
+  match es with
+  | [] => []
+  | (now, e) :: es' => let r := proc_event dl st now e in r :: run_proc dl (r_state r) es'
+  end.
+
+(* ghost-annotated processing cycles of one object: (consecutive errors before, the guarded environment, result) *)
+Fixpoint proc_counts (dl : nat -> option Z) (st : tstate) (c : nat) (es : list (Z * ep)) : list (nat * ep * result) :=
+  match es with
+  | [] => []
+  | (now, e) :: es' =>
+      let e' := guard dl st now e in
+      let r := episode dl st now e' in
+      (c, e', r) :: proc_counts dl (r_state r) (count_after c r (e_body e')) es'
+  end.
+
 (* ---- the world of several objects: one throttler per uid ---- *)
 Definition world := nat -> tstate.
 Definition w0 : world := fun _ => t0.
@@ -116,6 +145,21 @@ Definition w0 : world := fun _ => t0.
 Definition wstep (dl : nat -> option Z) (w : world) (u : nat) (now : Z) (e : ep) : world * result :=
   let r := episode dl (w u) now e in
   (fun v => if Nat.eqb v u then r_state r else w v, r).
+
+(* any interleaving of processing cycles of several objects: (uid, entry time, environment) *)
+Fixpoint wrun (dl : nat -> option Z) (w : world) (evs : list (nat * Z * ep)) : list (nat * result) :=
+  match evs with
+  | [] => []
+  | (u, now, e) :: evs' =>
+      let r := proc_event dl (w u) now e in
+      (u, r) :: wrun dl (fun v => if Nat.eqb v u then r_state r else w v) evs'
+  end.
+
+Definition of_object {A} (v : nat) (l : list (nat * A)) : list A :=
+  map snd (filter (fun x => Nat.eqb (fst x) v) l).
+
+Definition events_of (v : nat) (evs : list (nat * Z * ep)) : list (Z * ep) :=
+  map (fun x => (snd (fst x), snd x)) (filter (fun x => Nat.eqb (fst (fst x)) v) evs).
 
 (* process_resource_event's block is `if should_run: ...`: it never raises when told not to run *)
 Definition honours (st : tstate) (now : Z) (e : ep) : Prop :=
@@ -148,3 +192,13 @@ Fixpoint obs_list_eqb (x y : list obs) : bool :=
 
 Definition run_obs (dl : nat -> option Z) (es : list (Z * ep)) : list obs :=
   map obs_of (run_eps dl t0 es).
+
+Definition wrun_obs (dl : nat -> option Z) (evs : list (nat * Z * ep)) : list (nat * obs) :=
+  map (fun ur => (fst ur, obs_of (snd ur))) (wrun dl w0 evs).
+
+Fixpoint wobs_list_eqb (x y : list (nat * obs)) : bool :=
+  match x, y with
+  | [], [] => true
+  | (u, a) :: x', (v, b) :: y' => Nat.eqb u v && obs_eqb a b && wobs_list_eqb x' y'
+  | _, _ => false
+  end.
